@@ -22,7 +22,7 @@
 (***************************************************************************)
 EXTENDS C06_Defs, Json
 
-CONSTANTS Geoms,       \* sequence of [name, cls, dims, edges]
+CONSTANTS Geoms,       \* sequence of [name, cls, dims, edges, depth]
           MaxDepth,    \* gates per history
           WideDepth,   \* histories shorter than this explore the full cross product
           MaxArity,
@@ -236,6 +236,7 @@ Init ==
   /\ form = "struct"
   /\ depth = 0 /\ nrej = 0 /\ ok = TRUE /\ hist = <<>>
 
+DepthBound == IF geom.depth > 0 THEN geom.depth ELSE MaxDepth
 Wide == depth < WideDepth
 Ops == IF Wide THEN {"N", "T", "H"} ELSE NarrowOps
 Gids == IF Wide THEN WideGids ELSE {1}
@@ -247,44 +248,51 @@ Act(kind, r, sites, G, op, which) ==
   [kind |-> kind, geom |-> geom.name, dims |-> geom.dims, entry |-> r.entry, mode |-> r.mode, sites |-> sites, op |-> op,
    which |-> which, G |-> G, formbefore |-> form]
 
-\* Apply, split by implementation family so that coverage is reported per family
-ApplyVia(r, sites, g, op, which) ==
-  LET k   == Len(sites)
-      G   == GateFor(SubDims(geom.dims, sites), g)
-      adj == PairAdjacent(geom.edges, sites)
-      ref == ApplyRef(G, geom.dims, sites, psi, op, which)
-      imp == Impl(geom, psi, G, sites, op, which, r)
-  IN  /\ depth < MaxDepth
-      /\ Accepts(geom.cls, r.entry, r.mode, k, adj, form, op, which) = "yes"
-      /\ psi' = ref
-      /\ outer' = outer /\ sitetags' = sitetags
-      /\ form' = FormAfter(form, r.entry, r.mode, k)
-      /\ ok' = (imp = ref)
-      /\ depth' = depth + 1 /\ nrej' = nrej /\ lane' = <<>>
-      /\ hist' = IF Record THEN Append(hist, Act("apply", r, sites, G, op, which)) ELSE hist
-      /\ UNCHANGED geom
-
+\* the implementation family of a route (which transcription in Impl applies)
 SwapFamily(r, k) == r.entry \in {"gate_with_auto_swap", "gate_sandwich_with_auto_swap"} \/ (r.entry = "gate" /\ k = 2 /\ r.mode \in {"swap+split", "auto-mps"})
 MpoFamily(r, k) == r.entry \in {"gate_nonlocal", "gate_with_submpo", "gate_with_mpo"} \/ (r.entry = "gate" /\ k >= 2 /\ r.mode = "nonlocal") \/ (r.entry = "gate" /\ k >= 3 /\ r.mode = "auto-mps")
+Family(r, k, w) == IF SwapFamily(r, k) THEN "swapped" ELSE IF MpoFamily(r, k) THEN "submpo"
+                   ELSE IF r.entry = "op_lazy" THEN "oplazy" ELSE IF w = "sandwich" THEN "sandwich" ELSE "wired"
+\* a route of each family (Impl only looks at the family)
+FamilyRoute(fam, w) ==
+  CASE fam = "swapped" -> IF w = "sandwich" THEN R("gate_sandwich_with_auto_swap", "split") ELSE R("gate_with_auto_swap", "swap")
+    [] fam = "submpo"  -> R("gate_nonlocal", "direct")
+    [] fam = "oplazy"  -> R("op_lazy", "lazy")
+    [] OTHER           -> R("gate", "True")
 
-ApplyWired == \E r \in Routes, s \in Sites, g \in Gids, op \in Ops : \E w \in Whiches(geom.cls, r) :
-                 /\ ~SwapFamily(r, Len(s)) /\ ~MpoFamily(r, Len(s)) /\ r.entry # "op_lazy" /\ w # "sandwich"
-                 /\ ApplyVia(r, s, g, op, w)
-ApplySandwich == \E r \in Routes, s \in Sites, g \in Gids, op \in Ops :
-                 /\ ~SwapFamily(r, Len(s)) /\ r.entry # "op_lazy" /\ IsOp(geom.cls)
-                 /\ "sandwich" \in Whiches(geom.cls, r)
-                 /\ ApplyVia(r, s, g, op, "sandwich")
-ApplySwapped == \E r \in Routes, s \in Sites, g \in Gids, op \in Ops : \E w \in Whiches(geom.cls, r) :
-                 SwapFamily(r, Len(s)) /\ ApplyVia(r, s, g, op, w)
-ApplySubMpo == \E r \in Routes, s \in Sites, g \in Gids, op \in Ops :
-                 MpoFamily(r, Len(s)) /\ ApplyVia(r, s, g, op, "site")
-ApplyOpLazy == \E r \in Routes, s \in Sites, g \in Gids, op \in Ops : \E w \in Whiches(geom.cls, r) :
-                 r.entry = "op_lazy" /\ ApplyVia(r, s, g, op, w)
+\* One action per implementation family (coverage is reported per family).  The reference update and the
+\* family's transcription are evaluated once per (sites, gate, op, which) and shared by the family's routes.
+ApplyFam(fam) ==
+  \E s \in Sites, g \in Gids, op \in Ops, w \in {"site", "upper", "lower", "sandwich"} :
+    /\ depth < DepthBound
+    /\ WhichOK(geom.cls, w)
+    /\ LET k   == Len(s)
+           G   == GateFor(SubDims(geom.dims, s), g)
+           adj == PairAdjacent(geom.edges, s)
+           ref == ApplyRef(G, geom.dims, s, psi, op, w)
+           imp == Impl(geom, psi, G, s, op, w, FamilyRoute(fam, w))
+       IN  \E r \in Routes :
+             /\ w \in Whiches(geom.cls, r)
+             /\ Family(r, k, w) = fam
+             /\ Accepts(geom.cls, r.entry, r.mode, k, adj, form, op, w) = "yes"
+             /\ psi' = ref
+             /\ outer' = outer /\ sitetags' = sitetags
+             /\ form' = FormAfter(form, r.entry, r.mode, k)
+             /\ ok' = (imp = ref)
+             /\ depth' = depth + 1 /\ nrej' = nrej /\ lane' = <<>>
+             /\ hist' = IF Record THEN Append(hist, Act("apply", r, s, G, op, w)) ELSE hist
+             /\ UNCHANGED geom
+
+ApplyWired    == ApplyFam("wired")
+ApplySandwich == ApplyFam("sandwich")
+ApplySwapped  == ApplyFam("swapped")
+ApplySubMpo   == ApplyFam("submpo")
+ApplyOpLazy   == ApplyFam("oplazy")
 
 \* a combination the table refuses: quimb raises, nothing changes
 Reject ==
   \E r \in Routes, s \in Sites, op \in {"N"} : \E w \in Whiches(geom.cls, r) :
-     /\ depth < MaxDepth /\ nrej < 1
+     /\ depth < DepthBound /\ nrej < 1
      /\ Accepts(geom.cls, r.entry, r.mode, Len(s), PairAdjacent(geom.edges, s), form, op, w) = "no"
      /\ ~(r.entry = "Tensor.gate")
      /\ nrej' = nrej + 1
@@ -301,7 +309,7 @@ CheckFacts ==
                  /\ \A w \in (IF IsOp(geom.cls) THEN {"upper", "lower", "sandwich"} ELSE {"site"}) :
                        (g = 1 => FactDef(G, geom, lane, psi, op, w))
             /\ (lane = <<1>> => FactProduct([geom EXCEPT !.dims = DenseDims(geom)], psi))
-  /\ depth' = MaxDepth
+  /\ depth' = DepthBound
   /\ UNCHANGED <<geom, lane, psi, outer, sitetags, form, nrej, hist>>
 
 Next == ApplyWired \/ ApplySandwich \/ ApplySwapped \/ ApplySubMpo \/ ApplyOpLazy \/ Reject \/ CheckFacts
@@ -318,5 +326,5 @@ TypeOK == /\ Len(psi) = Size(DenseDims(geom))
           /\ form \in {"struct", "loose"}
 
 \* a complete behaviour is printed when it reaches the depth bound (simulation, Record = TRUE)
-EmitJson == (Record /\ depth = MaxDepth) => PrintT(<<"QVJSON", ToJson(hist)>>)
+EmitJson == (Record /\ depth = DepthBound) => PrintT(<<"QVJSON", ToJson(hist)>>)
 =============================================================================
